@@ -4,11 +4,15 @@ import (
 	"encoding/hex"
 	"encoding/json"
 	"fmt"
+	"slices"
+	"strings"
+	"testing/synctest"
 	"time"
 
 	"github.com/ethereum/go-ethereum/p2p/enode"
 	"github.com/holiman/uint256"
 	"github.com/zen-eth/shisui/portalwire"
+	pingext "github.com/zen-eth/shisui/portalwire/ping_ext"
 	"github.com/zen-eth/shisui/storage"
 	"verifharness/mc"
 )
@@ -156,6 +160,101 @@ func c06Product(r *mc.Report) {
 	r.Sample(c06Case{"mixed", "0x200", "0x1ff", "inRange"})
 }
 
+// c06Callers: the same lattice through the two other users of the in-range test. Gossip: a
+// table of two nodes, the first reports each radius in a pong, the content id lies at each
+// distance from THAT node (so its distance from the local node is unrelated): it is a gossip
+// target exactly when the distance is below its radius. Offers: a node whose store
+// advertises each radius is offered a fresh key at each distance from the node itself, under
+// both protocol versions: the key is marked accepted exactly when the distance is below the radius.
+func c06Callers(r *mc.Report) {
+	lat := c06Lattice()
+	n := 0
+	msg := inBubble(func() {
+		f := newC20Fix("history", 2, 50)
+		defer f.close()
+		x := f.nodes[0]
+		for _, radius := range lat {
+			f.pong(x, pingext.HistoryRadius, c20SSZ(radius))
+			synctest.Wait()
+			for _, d := range lat {
+				d32 := d.Bytes32()
+				cid := x.ID().Bytes()
+				for i := range cid {
+					cid[i] ^= d32[i]
+				}
+				keys, contents := c20Batch(cid, 0)
+				c := c06Case{"gossip-target", radius.Hex(), d.Hex(), "Gossip"}
+				var got []enode.ID
+				if m, site := panicsTo(func() { got, _, _ = f.gossip(nil, nil, keys, contents) }); m != "" {
+					r.Violation("in-range-no-panic", site, m, c)
+					continue
+				}
+				chosen := slices.Contains(got, x.ID())
+				n++
+				if d.Eq(radius) {
+					r.Exec(fmt.Sprintf("Gossip:boundary:%v", chosen))
+					continue
+				}
+				if want := d.Lt(radius); chosen != want {
+					kind := "offers-to-a-node-whose-radius-does-not-cover"
+					if want {
+						kind = "skips-a-node-whose-radius-covers"
+					}
+					r.Violation("in-range-test-is-xor-distance-below-radius", "Gossip:"+kind, fmt.Sprintf("table node reported radius %s, content at distance %s from it: gossip target %v, XOR rule says %v", radius.Hex(), d.Hex(), chosen, want), c)
+					continue
+				}
+				r.Exec(fmt.Sprintf("Gossip:%v:%d:%d", chosen, radius.BitLen(), d.BitLen()))
+			}
+		}
+	})
+	if msg != "" {
+		r.EngineError("C06 gossip callers: " + msg)
+	}
+	st := &fixedRadiusStore{ContentStorage: storage.NewMockStorage(), radius: uint256.NewInt(0)}
+	bn := c06Node(st)
+	defer bn.Close()
+	self := bn.P.Self().ID()
+	for _, radius := range lat {
+		st.radius = radius
+		for _, d := range lat {
+			d32 := d.Bytes32()
+			key := self.Bytes()
+			for i := range key {
+				key[i] ^= d32[i]
+			}
+			for ver := uint8(0); ver <= 1; ver++ {
+				c := c06Case{"offered-key", radius.Hex(), d.Hex(), fmt.Sprintf("OfferFilter:v%d", ver)}
+				var acc portalwire.CommonAccept
+				var err error
+				if m, site := panicsTo(func() { acc, _, err = bn.P.VerifFilterContentKeys(&portalwire.Offer{ContentKeys: [][]byte{key}}, ver) }); m != "" {
+					r.Violation("in-range-no-panic", site, m, c)
+					continue
+				}
+				if err != nil {
+					r.Violation("offer-filter-returns", "filterContentKeys", err.Error(), c)
+					continue
+				}
+				accepted := len(acc.GetAcceptIndices()) == 1
+				n++
+				if d.Eq(radius) {
+					r.Exec(fmt.Sprintf("OfferFilter:boundary:%v", accepted))
+					continue
+				}
+				if want := d.Lt(radius); accepted != want {
+					kind := "accepts-a-key-outside-the-radius"
+					if want {
+						kind = "declines-a-key-inside-the-radius"
+					}
+					r.Violation("in-range-test-is-xor-distance-below-radius", "OfferFilter:"+kind, fmt.Sprintf("store radius %s, fresh key at distance %s (version %d): accepted %v, XOR rule says %v", radius.Hex(), d.Hex(), ver, accepted, want), c)
+					continue
+				}
+				r.Exec(fmt.Sprintf("OfferFilter:v%d:%v:%d:%d", ver, accepted, radius.BitLen(), d.BitLen()))
+			}
+		}
+	}
+	r.Count("in_range_caller_cases", int64(n))
+}
+
 func runC06(r *mc.Report, e *Env) {
 	r.Rule = "(a) BFS over put histories (see C05) with the radius clauses evaluated after every put on a scan of the database; (b) full product of a boundary lattice of radii x distances x 3 node ids through the in-range test and the Store RPC; distinct = distinct canonical store states / (verdict, radius bits, distance bits)"
 	nb := len(c05Tasks(e.Thorough()))
@@ -164,6 +263,7 @@ func runC06(r *mc.Report, e *Env) {
 	}
 	if e.Of <= 1 || e.Shard == nb {
 		c06Product(r)
+		c06Callers(r)
 	}
 	for t := 0; t < c06bTasks(); t++ {
 		if e.Of <= 1 || e.Shard == nb+1+t {
@@ -184,6 +284,10 @@ func replayC06(r *mc.Report, e *Env, raw json.RawMessage) {
 	var c c06Case
 	if err := json.Unmarshal(raw, &c); err != nil {
 		panic(err)
+	}
+	if c.Via == "Gossip" || strings.HasPrefix(c.Via, "OfferFilter") {
+		c06Callers(r) // the whole lattice again (a second): the report lists what reproduces
+		return
 	}
 	radius, dist := uint256.MustFromHex(c.Radius), uint256.MustFromHex(c.Distance)
 	node := c04Nodes[c.Node]
